@@ -12,6 +12,11 @@
  *   I slot bpp w h z|v [w*h values]          new image (a1/a4/a8, a8r8g8b8 for bpp 32, x8r8g8b8 for "bpp" 24), zero or given pixels
  *   P slot repeat                            pixman_image_set_repeat (0 none, 1 normal, 2 pad, 3 reflect)
  *   S slot r g b a                           new solid fill image (16 bit channels)
+ *   AM slot mapslot x y                      pixman_image_set_alpha_map (mapslot -1: none); the map's slot must
+ *                                            stay alive as long as the image is used
+ *   CL slot n <4n ints: x1 y1 x2 y2>         pixman_image_set_clip_region32 (n = -1: no clip region)
+ *   HC slot 0|1                              pixman_image_set_has_client_clip
+ *   CS slot 0|1                              pixman_image_set_source_clipping
  *   RT slot xoff yoff <10 ints>              pixman_rasterize_trapezoid
  *   AT slot xoff yoff n <10n ints>           pixman_add_trapezoids
  *   AP slot xoff yoff n <6n ints>            pixman_add_traps  (top.l top.r top.y bot.l bot.r bot.y)
@@ -413,6 +418,46 @@ main (int argc, char **argv)
 	    slot_free (&slots[sl]);
 	    col.red = c[0]; col.green = c[1]; col.blue = c[2]; col.alpha = c[3];
 	    slots[sl].img = pixman_image_create_solid_fill (&col);
+	}
+	else if (!strcmp (cmd, "AM"))
+	{
+	    int sl, ms, x, y;
+	    if (!rd (in, &sl) || !rd (in, &ms) || !rd (in, &x) || !rd (in, &y)) return 3;
+	    if (sl < 0 || sl >= NSLOT || !slots[sl].img || ms >= NSLOT || (ms >= 0 && !slots[ms].img)) return 3;
+	    pixman_image_set_alpha_map (slots[sl].img, ms < 0 ? NULL : slots[ms].img, x, y);
+	}
+	else if (!strcmp (cmd, "CL"))
+	{
+	    int sl, n;
+	    if (!rd (in, &sl) || !rd (in, &n)) return 3;
+	    if (sl < 0 || sl >= NSLOT || !slots[sl].img) return 3;
+	    if (n < 0)
+		pixman_image_set_clip_region32 (slots[sl].img, NULL);
+	    else
+	    {
+		pixman_region32_t reg;
+		if (!rdn (in, 4 * n)) return 3;
+		pixman_region32_init (&reg);
+		for (i = 0; i < n; i++)
+		{
+		    /* a union of rectangles, built by the library itself */
+		    if (vals[4 * i + 2] > vals[4 * i] && vals[4 * i + 3] > vals[4 * i + 1])
+			pixman_region32_union_rect (&reg, &reg, vals[4 * i], vals[4 * i + 1],
+						    vals[4 * i + 2] - vals[4 * i], vals[4 * i + 3] - vals[4 * i + 1]);
+		}
+		pixman_image_set_clip_region32 (slots[sl].img, &reg);
+		pixman_region32_fini (&reg);
+	    }
+	}
+	else if (!strcmp (cmd, "HC") || !strcmp (cmd, "CS"))
+	{
+	    int sl, v;
+	    if (!rd (in, &sl) || !rd (in, &v)) return 3;
+	    if (sl < 0 || sl >= NSLOT || !slots[sl].img) return 3;
+	    if (cmd[0] == 'H')
+		pixman_image_set_has_client_clip (slots[sl].img, v);
+	    else
+		pixman_image_set_source_clipping (slots[sl].img, v);
 	}
 	else if (!strcmp (cmd, "RT") || !strcmp (cmd, "AT") || !strcmp (cmd, "AP") || !strcmp (cmd, "AG"))
 	{
